@@ -5,14 +5,17 @@ from __future__ import annotations
 import ast
 
 from vlib.core import AnalysisError, Repo, Report, canon, norm, own_nodes
-from vlib.effects import GRAPH, STORE, Effects
+from vlib.effects import GRAPH, STORE, Effects  # noqa: F401  (the engine; run() uses its refinement vlib.h_c13.PurityEffects)
 
 EXPLANATION = (
     "Whole-package effect analysis (vlib/effects.py): per-function flow-sensitive origin tracking of every "
     "Graph/Store-typed receiver (FRESH = created here, or parameter-rooted access path), primitive mutators = the "
     "Graph/Store API methods that change triples or the set of graphs (+ `+=`/`-=` on graphs), summaries solved "
     "over the mypy-resolved, override-closed call graph (1-CFA on constant boolean flags; store-identity tests "
-    "refine aliasing). For every read-only entry point the summary must contain no path rooted at the source. "
+    "refine aliasing). The result of a call of a package function has the origin the callee's return statements give it "
+    "(return summary, mapped through the arguments), not 'receiver and every argument'; a call whose callee is a value - a "
+    "local alias, a lookup in a literal table of functions - calls every function that value can denote "
+    "(vlib/h_c13.py: PurityEffects). For every read-only entry point the summary must contain no path rooted at the source. "
     "Also: the in-memory stores' read methods never write their index dicts. Determinism of repeated reads is not decided."
 )
 
@@ -99,7 +102,9 @@ def check_entry(eff: Effects, rep: Report, rule: str, full: str, sources: set[st
 
 def run(repo: Repo, rep: Report) -> None:
     rep.extra["explanation"] = EXPLANATION
-    eff = Effects(repo)
+    from vlib.h_c13 import PurityEffects
+
+    eff = PurityEffects(repo)
     typed = repo.typed
 
     rep.rule("C13.z-benign-sites", "mutation sites on read paths that are exempt by an explicit table row with a reason", floor=0)
@@ -111,6 +116,8 @@ def run(repo: Repo, rep: Report) -> None:
     rep.info["primitive_mutation_sites"] = n_mut
     rep.info["resolved_call_sites"] = n_call
     rep.info["evalfn_targets"] = len(eff.evalfns)
+    rep.info["calls_whose_result_is_judged_by_the_callees_return_summary"] = eff.n_return_summaries_used
+    rep.info["calls_through_a_table_or_local_alias_resolved"] = eff.n_table_calls
     if n_mut < 100 or n_call < 3000 or len(eff.evalfns) < 40:
         raise AnalysisError("effect analysis lost resolution: %d mutation sites, %d call sites, %d evalfns" % (n_mut, n_call, len(eff.evalfns)))
     # positive control: known writers must be seen as writers
@@ -330,11 +337,228 @@ def run(repo: Repo, rep: Report) -> None:
                    "read-only" if not writes else "store read method writes store state: %s" % norm(writes[0])[:80], node=writes[0] if writes else f)
 
 
+def _stated_first(mod, call: ast.Call, w) -> bool:
+    """the asserting argument of `call` is a local name X and, earlier in the same block, `if ... (<wrapped term>, RDF.type, X) not in <g> ...: X = None`
+    resets it whenever the graph does not state that type for the term: the constructor's own `if triple not in graph: add` then adds nothing"""
+    term = call.args[0] if call.args else None
+    given = {k.arg: k.value for k in call.keywords if k.arg}
+    xs = [v for p_, v in given.items() if p_ in w.gating_params() and isinstance(v, ast.Name)]
+    if not isinstance(term, ast.Name) or len(xs) != 1:
+        return False
+    x = xs[0].id
+    st = call
+    while mod.parent.get(id(st)) is not None and not isinstance(st, ast.stmt):
+        st = mod.parent[id(st)]
+    owner = mod.parent.get(id(st))
+    for field in ("body", "orelse"):
+        blk = getattr(owner, field, None)
+        if isinstance(blk, list) and st in blk:
+            for prev in blk[:blk.index(st)]:
+                if not isinstance(prev, ast.If) or prev.orelse:
+                    continue
+                hit = any(isinstance(c, ast.Compare) and len(c.ops) == 1 and isinstance(c.ops[0], ast.NotIn) and isinstance(c.left, ast.Tuple) and len(c.left.elts) == 3
+                          and norm(c.left.elts[0]) == term.id and norm(c.left.elts[1]) == "RDF.type" and norm(c.left.elts[2]) == x for c in ast.walk(prev.test))
+                resets = any(isinstance(a, ast.Assign) and norm(a.targets[0]) == x and isinstance(a.value, ast.Constant) and a.value.value is None for a in prev.body)
+                later = any(isinstance(a, ast.Assign) and norm(a.targets[0]) == x for q_ in blk[blk.index(prev) + 1:blk.index(st)] for a in ast.walk(q_))
+                if hit and resets and not later:
+                    return True
+    return False
+
+
+from vlib.core import layer as _layer  # noqa: E402
+
+_run_base1 = run
+
+
+def run(repo: Repo, rep: Report) -> None:  # noqa: F811
+    """rules i-m: reads that write through a helper the effect analysis does not follow (the untyped infixowl wrappers, the lazy
+    SELECT Result, the prefix a Turtle-family serializer binds while it serialises)"""
+    _layer(rep, _run_base1, repo)
+    from vlib import h_c13 as H
+    from vlib.cfg import CFG, eval3
+
+    # ------------------------------------------------------------------ i / j: infixowl readers wrap without asserting
+    ow = repo.mod("rdflib.extras.infixowl")
+    modes = H.wrapper_modes(ow)
+    if len(modes) < 2:
+        raise AnalysisError("infixowl: expected the constructors of Class and Property to gate their rdf:type assertion on a parameter, found %s" % sorted(modes))
+    mode_txt = "; ".join("%s(%s)" % (n, w.mode_text()) for n, w in sorted(modes.items()))
+    rep.info["infixowl_wrap_only_modes"] = {n: w.mode_text() for n, w in modes.items()}
+    rep.rule("C13.i-infixowl-readers-wrap-only",
+             "rdflib.extras.infixowl: a wrapper class whose constructor asserts `<identifier> rdf:type <T>` unless a parameter says otherwise "
+             "(derived from the guards of __init__: %s) is constructed in that wrap-only mode by every read accessor - a property getter, "
+             "__repr__/__eq__/__hash__/__len__/__iter__/__contains__/__getitem__, a module-level listing generator, and every function of the "
+             "module these call. Otherwise reading adds triples: with g = {A owl:equivalentClass B}, list(Class(A, graph=g).equivalentClass) "
+             "(or repr(), isPrimitive()) adds (B rdf:type owl:Class) to g" % mode_txt, floor=20)
+    rep.rule("C13.j-infixowl-catch-all-asserts-nothing",
+             "rdflib.extras.infixowl: where a read accessor chooses the type a wrapper is to assert from what it found in the graph (the mode argument is "
+             "a local name with several definitions), every asserting value is assigned under a positive test (body of an if / elif), and the "
+             "catch-all (else branch, or no test at all) assigns the wrap-only value: the catch-all covers every type that was not enumerated, about "
+             "which nothing follows - AllProperties(g) with g = {p rdf:type owl:AnnotationProperty} must not add (p rdf:type owl:DatatypeProperty)", floor=1)
+    readers = H.read_accessors(ow)
+    rep.info["infixowl_read_accessors"] = len(readers)
+    if len(readers) < 40:
+        raise AnalysisError("infixowl: only %d read accessors recognised (property getters, read dunders, listing generators)" % len(readers))
+    if "AllProperties" not in readers or "AllClasses" not in readers:
+        raise AnalysisError("infixowl: the listing generators AllClasses / AllProperties are no longer recognised as read accessors")
+    n_choice = 0
+    for q, (fn, why) in sorted(readers.items()):
+        rep.analysed("rdflib/extras/infixowl.py:%s" % q)
+        where = q.split("#")[0]
+        for n in own_nodes(fn, include_nested=True):
+            if not (isinstance(n, ast.Call) and isinstance(n.func, ast.Name) and n.func.id in modes):
+                continue
+            w = modes[n.func.id]
+            bad = w.call_may_assert(n, fn)
+            if bad is not None and H.found_as_type(fn, n, w.asserted_type):
+                # legitimate: the term was just read as `?x rdf:type <T>` with <T> the type the constructor asserts
+                rep.ob("C13.i-infixowl-readers-wrap-only", ow, where, n, True,
+                       "%s: asserting mode, but the term ranges over subjects(RDF.type, %s): the asserted triple is the one that was read" % (why, w.asserted_type), node=n)
+                continue
+            if bad is not None and _stated_first(ow, n, w):
+                # legitimate: the type is passed on only if the graph already states it for the term (`if (t, RDF.type, T) not in graph: T = None` just before)
+                rep.ob("C13.i-infixowl-readers-wrap-only", ow, where, n, True,
+                       "%s: the type argument is reset to the wrap-only value unless (<term>, rdf:type, <type>) is in the graph: nothing new is asserted" % why, node=n)
+                continue
+            rep.ob("C13.i-infixowl-readers-wrap-only", ow, where, n, bad is None,
+                   "%s: wrap-only (%s)" % (why, w.mode_text()) if bad is None else
+                   "%s constructs %s in asserting mode (%s; wrap-only would be %s): its __init__ then adds (<term> rdf:type ...) to the graph that is being read"
+                   % (why, n.func.id, ", ".join("%s is %s" % (p, v or "not a constant") for p, v in sorted(bad.items())), w.mode_text()), node=n)
+            # j: a mode argument chosen among several values
+            given = {k.arg: k.value for k in n.keywords if k.arg}
+            pos, _ = H.init_params(w.init)
+            given.update(dict(zip(pos, n.args)))
+            for p in w.gating_params():
+                e = given.get(p)
+                defs = H.name_values(fn, e.id) if isinstance(e, ast.Name) else None
+                if not defs or len(defs) < 2:
+                    continue  # not a choice among several values
+                for v, st in defs:
+                    if not w.asserting({p: H.absval(v)}):
+                        continue
+                    n_choice += 1
+                    pos_, iff = H.guard_position(ow, fn, st)
+                    rep.ob("C13.j-infixowl-catch-all-asserts-nothing", ow, where, st, pos_ == "positive",
+                           "asserting value chosen under the positive test `%s`" % norm(iff.test)[:80] if pos_ == "positive" else
+                           "the %s branch makes %s assert %s for everything the tests before it did not name" % (pos_, n.func.id, norm(v)), node=st)
+
+    if n_choice == 0:
+        # every reader passes a fixed mode (rule i says which): nothing is chosen at run time
+        rep.ob("C13.j-infixowl-catch-all-asserts-nothing", ow, "<read accessors>", "no read accessor chooses the type a wrapper asserts from what it found", True,
+               "%d read accessors, every mode argument is a constant or a default" % len(readers), node=None)
+
+    # ------------------------------------------------------------------ k / l: the lazy result keeps and replays every solution
+    rep.rule("C13.k-one-shot-source-fully-cached",
+             "a class that reads from a one-shot iterator held in an attribute (taken from with next()/for/list() and reset to None when exhausted, "
+             "Result._genbindings) puts EVERY element it takes into its cache list, on every path, before it yields, returns or takes the next "
+             "one - no test of the element in between. Otherwise what the object answers depends on whether it was iterated before: "
+             "r = g.query('SELECT ?x {}'); len(r) is 1, but after `for _ in r: pass` the all-unbound solution was dropped and len(r) is 0", floor=2)
+    rep.rule("C13.l-replay-cache-before-source",
+             "a generator method (which the caller may abandon part-way) that takes elements from the one-shot iterator reads the cache list on "
+             "every path before it does so: the elements an earlier, abandoned iteration already took are only in the cache. Otherwise "
+             "it = iter(r); next(it); list(r) starts at the second solution", floor=1)
+    found_result = False
+    for mname, m in sorted(repo.modules.items()):
+        for c in [x for x in ast.walk(m.tree) if isinstance(x, ast.ClassDef)]:
+            shots = H.one_shot_attrs(m, c)
+            if not shots:
+                continue
+            cq = m.qual_of(c)
+            if mname == "rdflib.query" and cq == "Result":
+                found_result = True
+            sites = []
+            caches: set[str] = set()
+            for f in H.class_functions(c):
+                for cons in H.consumptions(m, f, shots):
+                    g = CFG(f)
+                    ok, whyk, used = H.every_element_cached(m, f, g, cons)
+                    caches |= used
+                    sites.append((f, g, cons))
+                    rep.analysed("%s:%s.%s" % (m.rel, cq, f.name))
+                    rep.ob("C13.k-one-shot-source-fully-cached", m, "%s.%s" % (cq, f.name), cons.expr if cons.kind != "for" else "for ... in self.%s" % cons.attr,
+                           ok, whyk, node=cons.stmt)
+            for f, g, cons in sites:
+                if not H.has_yield(f):
+                    continue
+                reads = H.cache_reads(m, g, caches)
+                src = g.node_of(cons.stmt, m)
+                ok = bool(reads) and g.must_pass_before(src, reads - {src} if cons.kind == "for" else reads)
+                rep.ob("C13.l-replay-cache-before-source", m, "%s.%s" % (cq, f.name), cons.expr if cons.kind != "for" else "for ... in self.%s" % cons.attr, ok,
+                       "self.%s is read on every path before an element is taken from self.%s" % ("/".join(sorted(caches)) or "?", cons.attr) if ok else
+                       "a path reaches this without having read the cache (self.%s): the solutions an earlier, abandoned iteration took from self.%s are skipped"
+                       % ("/".join(sorted(caches)) or "none", cons.attr), node=cons.stmt)
+    if not found_result:
+        raise AnalysisError("rdflib.query.Result no longer has a one-shot iterator attribute (consumed and reset to None): anchor of C13.k/l vanished")
+
+    # ------------------------------------------------------------------ m: a prefix is generated only for a name that can use it
+    rep.rule("C13.m-prefix-generated-only-if-usable",
+             "a serializer function that asks the graph for a qname with prefix generation on (compute_qname without generate=False: the new "
+             "prefix is BOUND IN THE GRAPH) and afterwards refuses the qname by a test of its local part (`if R.search(local): return None`) "
+             "applies the very same test, to the unaltered local name split_uri(uri)[1], on every path before the generating call, and does not "
+             "generate when it holds. Otherwise a binding nobody uses stays in the graph: g = {s <http://e/p.> o}; g.serialize(format='turtle') "
+             "binds ns1 and writes <http://e/p.>, and the second serialize() of the unchanged graph writes another document (@prefix ns1)", floor=2)
+    for mname, m in sorted(repo.modules.items()):
+        if not mname.startswith("rdflib.plugins.serializers."):
+            continue
+        for q, fn in m.functions():
+            calls = H.qname_calls(fn)
+            gens = [c for c, gen_ in calls if gen_]
+            if not gens:
+                continue
+            tainted = H.derived_names(fn, lambda x: isinstance(x, ast.Call) and isinstance(x.func, ast.Attribute) and x.func.attr in H.QNAME_CALLS)
+            g = CFG(fn)
+            post = []
+            for n in own_nodes(fn):
+                if isinstance(n, ast.If) and H.returns_nothing(n.body):
+                    for p in H.string_preds(n.test):
+                        if H.names_in(p.subject) & tainted:
+                            post.append((n, p))
+            if not post:
+                continue
+            rep.analysed("%s:%s" % (m.rel, q))
+            tests = [n for n in own_nodes(fn) if isinstance(n, (ast.If, ast.While))]
+            for gc in gens:
+                gnode = g.node_of(gc, m)
+                uri_text = norm(gc.args[0])
+                for t2, p2 in post:
+                    if not g.can_follow(gnode, g.node_of(t2, m)):
+                        continue
+                    ok, why = False, "no test `%s` of the local name stands before the generating call" % norm(p2.call.func)
+                    for t1 in tests:
+                        t1n = g.node_of(t1, m)
+                        for p1 in H.string_preds(t1.test):
+                            if p1.sig != p2.sig or not g.can_follow(t1n, gnode) or t1 is t2:
+                                continue
+                            raw, contains = H.raw_local_of(fn, p1.subject, uri_text)
+                            if not raw:
+                                why = ("the test before the generating call is applied to `%s`, not to the local name itself%s: names the later test refuses still get a prefix bound"
+                                       % (norm(p1.subject)[:60], " (altered)" if contains else ""))
+                                continue
+                            verdict = eval3(t1.test, {norm(p1.call): True})
+                            if verdict is None:
+                                why = "`%s` does not decide the test `%s`" % (norm(p1.call)[:50], norm(t1.test)[:60])
+                                continue
+                            starts = H.edge_starts(g, t1n, verdict)
+                            after = set(starts)
+                            for s in starts:
+                                after |= g.reach(s, avoid={t1n})
+                            if not g.must_pass_before(gnode, {t1n}):
+                                why = "the test `%s` is not on every path to the generating call" % norm(t1.test)[:60]
+                            elif gnode in after:
+                                why = "the generating call is still reached when `%s` holds" % norm(p1.call)[:50]
+                            else:
+                                ok, why = True, "guarded by `%s`: nothing is generated for a local name the later `%s` refuses" % (norm(t1.test)[:70], norm(p2.call)[:40])
+                                break
+                        if ok:
+                            break
+                    rep.ob("C13.m-prefix-generated-only-if-usable", m, q, gc, ok, why, node=gc)
+
+
 _run_before_borrow = run
 
 
 def run(repo: Repo, rep: Report) -> None:  # noqa: F811
-    _run_before_borrow(repo, rep)
+    _layer(rep, _run_before_borrow, repo)
     from vlib.core import borrow
 
     borrow(repo, rep, "C13", "C15", ('C15.a',))
